@@ -1,9 +1,10 @@
 import EinxModel.Proofs.LowerEwDenote
+import EinxModel.Proofs.LowerRed
 import EinxModel.Props.C01
 /-!
-C01 (lowering algorithm, elementwise operations) — the decomposer's lowering of elementwise operations computes
-the loop-notation meaning, for **all** descriptions in the model's domain, any number of operands and **all** axis
-lengths.
+C01 (lowering algorithm, elementwise operations and reductions) — the decomposer's lowering of elementwise
+operations and of reductions computes the loop-notation meaning, for **all** descriptions in the model's domain, any
+number of operands and **all** axis lengths.
 
 `Generic.lowerElementwise` (`Generic/LowerOps.lean`) is the line-by-line model of `Decomposer.__call__` around
 `decomposednamedtensor_from_classical.elementwise` for the numpy backend: every input is decomposed
@@ -29,6 +30,18 @@ einx's solver never produces them), Python scalars as operands.
 * `lower_elementwise_validates`   … equivalently: the validator of C01 accepts, for every such description
 * `lower_elementwise_all_inputs`  … hence (by `validate_sound`) for all integer tensor contents and interpretations
 * `ew_instance_holds`             the instance the driver recomputes on every traced call of the stream
+
+Reductions: `Generic.lowerReduce` models `Decomposer.__call__` around `decomposednamedtensor_from_classical.reduce`
+(one input whose bracketed axes are reduced, one output): the input is decomposed, its unit axes that are *not* in
+brackets are removed, `np.f(x, axis=_expr_to_axis(expr))` is called once (never `keepdims`: einx expresses it in the
+output expression), `_ensure_output` checks the static shape, the result is transposed / broadcast to the flat
+output and reshaped to the grouped output.  Domain as above, plus: the output names no bracketed axis (`redDomain`);
+the ten reductions that `classical_from_numpy.ops` wraps with `reduce(np.f)` (not `logsumexp`).
+
+* `lower_reduce_correct`          run on the symbolic input (generic executor over `planInstrX`) = `Denote.denoteReduce`
+* `lower_reduce_validates`        … the validator of C01 (`validateG planInstrX`) accepts, for every such description
+* `lower_reduce_all_inputs`       … hence (by `validate_sound_extended`) for all integer tensor contents and interpretations
+* `red_instance_holds`            the instance the driver recomputes on every traced reduction of the stream
 -/
 namespace Einx.Lower
 open Einx Einx.IR Einx.Generic Einx.Denote
@@ -135,6 +148,94 @@ example :
     (match lowerElementwise "exp" [[.ax ⟨"a", 2⟩]] [.ax ⟨"a", 3⟩] with
       | .ok s => (match symRun s.prog [[2]] [s.reg] with | .ok _ => false | .error _ => true)
       | .error _ => true) = true := by
+  decide +kernel
+
+/-! ### Reductions -/
+
+/-- **Correctness of the lowering algorithm for reductions.**  For every numpy-wrapped reduction `f`, every input
+expression `gi` whose axes named in `m` are in brackets and every output expression `go` (flat or grouped to any depth,
+unit axes in or outside brackets, broadcast output axes, any permutation, any axis lengths) such that the output names
+are pairwise different and not bracketed and the lengths are consistent: if the model of einx's decomposer returns the
+program `l.prog` with result register `l.reg`, then
+
+* the loop-notation denotation `denoteReduce f` of the corresponding stage-3 expressions is defined, and
+* running the program on the symbolic input of shape `gShape gi` succeeds and leaves in `l.reg` exactly the
+  denotation: the same shape and, for every output position, the canonical reduction cell over the same input
+  elements. -/
+theorem lower_reduce_correct (f : String) (m : List String) (gi go : List G) (l : LX)
+    (hd : redDomain m gi go = true) (h : lowerReduce f m gi go = .ok l) :
+    ∃ T, denoteReduce f (rootExprM m gi) (rootExpr go) = .ok T ∧ T.shape = gShape go ∧
+      symRunG planInstrX l.prog [gShape gi] [l.reg] = .ok [T] :=
+  lower_red_core hd h
+
+/-- **The validator accepts the lowering of every reduction.** -/
+theorem lower_reduce_validates (f : String) (m : List String) (gi go : List G) (l : LX)
+    (hd : redDomain m gi go = true) (h : lowerReduce f m gi go = .ok l) :
+    ∃ exp, denoteReduce f (rootExprM m gi) (rootExpr go) = .ok exp ∧
+      validateG planInstrX l.prog [gShape gi] [l.reg] [exp] = true := by
+  obtain ⟨T, hden, _, hrun⟩ := lower_reduce_correct f m gi go l hd h
+  exact ⟨T, hden, by simp [validateG, hrun, tensorsBeq_refl]⟩
+
+/-- **For all tensor contents.**  By `validate_sound_extended`: for every integer tensor `x` of the input shape, every
+interpretation of the function symbols (in particular of `red:f`, applied to the canonical multiset of the reduced
+elements) and any value for out-of-range reads, the lowered program runs on `x` and its result register holds the
+loop-notation denotation evaluated on `x`. -/
+theorem lower_reduce_all_inputs (f : String) (m : List String) (gi go : List G) (l : LX)
+    (hd : redDomain m gi go = true) (h : lowerReduce f m gi go = .ok l)
+    (I : String → List Int → Int) (bad : Int) (x : Tensor Int)
+    (hx : x.shape = gShape gi) (hlen : x.data.length = prod x.shape) :
+    ∃ T regs, denoteReduce f (rootExprM m gi) (rootExpr go) = .ok T ∧
+      evalProgG planInstrX (intAlgOf I bad) l.prog [x] = .ok regs ∧
+      regs[l.reg]? = some (T.map (evalCell (intAlgOf I bad) [x])) := by
+  obtain ⟨T, hden, hv⟩ := lower_reduce_validates f m gi go l hd h
+  have hv' : validateG planInstrX l.prog ([x].map (·.shape)) [l.reg] [T] = true := by simpa [hx] using hv
+  obtain ⟨regs, hev, hout'⟩ := validate_sound_extended l.prog [l.reg] [T] I bad [x] (by simpa using hlen) hv'
+  exact ⟨T, regs, hden, hev, by simpa using hout'⟩
+
+/-- The instance of the theorem that the driver computes on every traced reduction of the `lower_model` stream. -/
+theorem red_instance_holds (f : String) (m : List String) (gi go : List G) (l : LX) (hd : redDomain m gi go = true)
+    (h : lowerReduce f m gi go = .ok l) : redInstance f m gi go = true := by
+  obtain ⟨exp, hden, hv⟩ := lower_reduce_validates f m gi go l hd h
+  simp only [redInstance, h, hden, hv]
+
+/-- `a [b] (c [d]) 1 -> c a 1` with `a=2, b=3, c=2, d=2` (einx: `einx.sum("a [b] (c [d]) 1 -> c a 1", x, c=2)`). -/
+def redIn : List G := [.ax ⟨"a", 2⟩, .ax ⟨"b", 3⟩, .grp [.ax ⟨"c", 2⟩, .ax ⟨"d", 2⟩], .ax ⟨"u", 1⟩]
+def redOut : List G := [.ax ⟨"c", 2⟩, .ax ⟨"a", 2⟩, .ax ⟨"v", 1⟩]
+
+def instrCodeX : InstrX → List Nat
+  | .base i => instrCodeE i
+  | .reduce _ x axes k => 4 :: x :: (if k then 1 else 0) :: axes
+  | _ => [9]
+
+/-- The hypotheses hold, the lowering succeeds with the program einx emits
+(before optimisation: `reshape (2,3,2,2,1); reshape (2,3,2,2); sum axis=(1,3); transpose (1,0); reshape (2,2,1)`), the validator accepts it against the
+denotation, and the denotation is a genuine reduction (its first cell is a `red:sum` of six input elements). -/
+example :
+    redDomain ["b", "d"] redIn redOut = true ∧
+    (match lowerReduce "sum" ["b", "d"] redIn redOut, denoteReduce "sum" (rootExprM ["b", "d"] redIn) (rootExpr redOut) with
+      | .ok l, .ok exp =>
+        l.prog.map instrCodeX == [[0, 0, 2, 3, 2, 2, 1], [0, 1, 2, 3, 2, 2], [4, 2, 0, 1, 3], [1, 3, 1, 0], [0, 4, 2, 2, 1]]
+          && l.reg == 5 && validateG planInstrX l.prog [gShape redIn] [l.reg] [exp]
+          && (match exp.data.head? with
+              | some (.app g args) => g == "red:sum" && args.length == 6
+              | _ => false)
+      | _, _ => false) = true := by
+  decide +kernel
+
+/-- The theorem applied to the example. -/
+example : ∃ l exp, lowerReduce "max" ["b", "d"] redIn redOut = .ok l ∧
+    denoteReduce "max" (rootExprM ["b", "d"] redIn) (rootExpr redOut) = .ok exp ∧
+    validateG planInstrX l.prog [gShape redIn] [l.reg] [exp] = true := by
+  have hok : (match lowerReduce "max" ["b", "d"] redIn redOut with | .ok _ => true | .error _ => false) = true := by
+    decide +kernel
+  cases h : lowerReduce "max" ["b", "d"] redIn redOut with
+  | error e => simp [h] at hok
+  | ok l =>
+    obtain ⟨exp, hd, hv⟩ := lower_reduce_validates "max" ["b", "d"] redIn redOut l (by decide +kernel) h
+    exact ⟨l, exp, rfl, hd, hv⟩
+
+/-- `logsumexp` is not a numpy-wrapped reduction: the model declines. -/
+example : (match lowerReduce "logsumexp" ["b"] redIn redOut with | .ok _ => false | .error _ => true) = true := by
   decide +kernel
 
 end Einx.Lower
